@@ -40,7 +40,8 @@ ProbeDoc == XE(N(<<"D", "-", "a">>), <<[nm |-> N(<<"x", "-", "Y">>), v |-> <<"1"
 ProbeSeqDoc == XE(NM("p", <<"A">>), <<[nm |-> N(<<"z", "-", "z">>), v |-> <<"1", "&">>]>>,
                   <<XC(<<"c">>), XE(N(<<"B", "-", "c">>), <<>>, <<XT(<<" ", "v", " ">>)>>), XE(N(<<"d">>), <<>>, <<XT(<<"<", "7">>)>>)>>)
 ProbeMap == VM(<<"d", "o", "c">> :> VM((<<"-", "x">> :> VS(<<"1">>)) @@ (<<"@", "y">> :> VS(<<"2">>)) @@ (<<"#", "t", "e", "x", "t">> :> VS(<<"t", "<">>))
-                  @@ (<<"_", "t", "e", "x", "t">> :> VS(<<"u">>)) @@ (<<"e">> :> VL(<<VS(<<"a">>), VS(<<>>), VM(<<"-", "k">> :> VS(<<"v">>))>>)) @@ (<<"g">> :> EmptyMap)))
+                  @@ (<<"_", "t", "e", "x", "t">> :> VS(<<"u">>)) @@ (<<"e">> :> VL(<<VS(<<"a">>), VS(<<>>), VM(<<"-", "k">> :> VS(<<"v">>))>>)) @@ (<<"g">> :> EmptyMap)
+                  @@ (<<"E">> :> VS(<<"w">>)) @@ (<<"-", "X">> :> VS(<<"3">>))))      \* (keys that differ in case only: byte order whatever the key-folding registers hold)
 \* single-character prefixes only (the codec specifications model prefixes as one character or empty)
 CodecDomain(o) == Len(o.attrPrefix) <= 1 /\ o.attrPrefix # o.keyPrefix
 DefaultCastRegs(o) == ~o.castInt /\ o.castFloat /\ o.castBool /\ ~o.skipTag
